@@ -219,6 +219,8 @@ pub fn run(a: &Args) {
     // filtering in the context of the encoder: the filter setting changed between rows through the stream writer - each row must be filtered
     // against the row above it and the stream must reconstruct to the rows given
     crate::c03::filter_switch_cases(&mut o, &mut rng, a.tier == "thorough");
+    // ... and through the whole-image call, every filter setting, rows with arbitrary padding bits
+    crate::c03::whole_image_filter_cases(&mut o, &mut rng, a.tier == "thorough");
     if a.tier == "thorough" {
         // exhaustive rows of <= 3 pixels over a 4-value alphabet for bpp 1 and 2
         let alpha = [0u8, 1, 128, 255];
